@@ -4,6 +4,8 @@ from vlib import core
 
 VARIANTS = {"vsbx": ([], "tree", 8), "noop": (["-DCALLS_NOOP"], "treen", 64), "noop_tls": (["-DCALLS_NOOP", "-DCALLS_EMBEDDER_TLS"], "treen", 64),
             # the bundled dylib backend, executed for real: the guest functions live in a shared object the backend dlopens
+            # the two notification hooks WITHOUT RLBOX_MEASURE_TRANSITION_TIMES: notifications must not depend on the timing option
+            "noop_hooks": (["-DCALLS_NOOP", "-DCALLS_NO_TIMES"], "treenh", 64),
             "dylib": (["-DCALLS_DYLIB"], "treen", 64), "dylib_tls": (["-DCALLS_DYLIB", "-DCALLS_EMBEDDER_TLS"], "treen", 64)}
 
 
@@ -157,6 +159,8 @@ def oracle_c19(toks, line):
                 stack.pop()
     if stack:
         return False
+    if t0 == "none" and t1 == "none":
+        return True       # built without the timing option: only the notifications are judged
     return len(t0) == cross[0] and len(t1) == cross[1] and "?" not in t0 + t1
 
 
